@@ -198,39 +198,8 @@ def pins_rolegraph(out):
     body = fn_body(enf, r"async\s+fn\s+new_raw\s*<") or ""
     m = re.search(r"DefaultRoleManager::new\(\s*(\d+)\s*\)", body)
     out.append("Definition pin_hierarchy_limit : nat := %s." % (m.group(1) if m else "0"))
-    # the statements under #[cfg(feature = "cached")] (the has_link cache: key computation, get, set, the clears in add_link /
-    # delete_link / clear / get_or_create_role) are turned into comments by the part 11 translator; they are pinned as TEXT here,
-    # each with the name of the function that holds it (a dropped or moved cache.clear() is otherwise invisible to the proofs)
-    import hashlib
-    stmts = []
-    for m in re.finditer(r'#\[cfg\(feature\s*=\s*"cached"\)\]', src):
-        k = m.end()
-        depth = 0
-        j = k
-        while j < len(src):
-            c = src[j]
-            if c == "{":
-                depth += 1
-            elif c == "}":
-                if depth == 0:
-                    break
-                depth -= 1
-                if depth == 0 and re.match(r"\s*(;|\n)", src[j + 1:j + 3] or "\n") and not re.match(r"\s*let\b", src[k:j]):
-                    j += 1
-                    break
-            elif c == ";" and depth == 0:
-                j += 1
-                break
-            j += 1
-        fn = None
-        for fm in re.finditer(r"fn\s+(\w+)\s*[(<]", src[:m.start()]):
-            fn = fm.group(1)
-        stmts.append("%s: %s" % (fn, re.sub(r"\s+", " ", src[k:j]).strip()))
-    if "#[cfg(test)]" in src:
-        cut = src.index("#[cfg(test)]")
-        stmts = [st for st, mm in zip(stmts, re.finditer(r'#\[cfg\(feature\s*=\s*"cached"\)\]', src)) if mm.start() < cut]
-    out.append("Definition pin_body_rmcache_stmts : text := %s." % T(hashlib.sha256("\n".join(stmts).encode("utf-8")).hexdigest()[:16]))
-    out.append("Definition pin_rmcache_count : nat := %d." % len(stmts))
+    # (the statements under #[cfg(feature = "cached")] - the has_link cache - are translated by part 23, tools/rs2coq_rmcache.py,
+    #  and proved against Model/RmCache.v in PinChecks/PcRmCacheGen.v)
     # the bodies of default_role_manager.rs are no longer hash-pinned: rs2coq part 11 (tools/rs2coq_rm.py) translates every
     # non-test fn of the file each run and PinChecks/PcRoleManagerGen.v proves the translation equal to Model/RoleGraphM.v
 
